@@ -54,6 +54,24 @@ Theorem C01_concurrent_messages :
              (concat (pick j gs (hrun_each hinit (map (gconc D) gs)))).
 Proof. exact concurrent_outcomes. Qed.
 
+(* ... and stray responses anywhere in between - responses with a number that is not outstanding (unsolicited, duplicate, late) or of
+   another type than the request stored under their number - change nothing: the events of the messages are enabled and produce
+   exactly what they produce without the strays, and what the hook gets for a stray response carries no message's identity *)
+Theorem C01_stray_responses :
+  forall (n : nat) (D : nat -> mdesc),
+  (forall j, (j < n)%nat ->
+     (2 <= md_k (D j))%nat /\ 0 <= md_r (D j) < 65536
+     /\ forall a b, (a < md_k (D j))%nat -> (b < md_k (D j))%nat -> md_sq (D j) a = md_sq (D j) b -> a = b) ->
+  (forall i j, (i < n)%nat -> (j < n)%nat -> i <> j ->
+     forall a b, (a < md_k (D i))%nat -> (b < md_k (D j))%nat -> md_sq (D i) a <> md_sq (D j) b) ->
+  forall xs s Q LR,
+  MI n D s Q LR -> xvalid n D s Q LR xs ->
+  gvalid n D Q LR (xmsgs xs)
+  /\ xpick xs (hrun_each s (map (xconc D) xs)) = gspec D Q LR (xmsgs xs)
+  /\ forall outs o, In outs (xstray_outs xs (hrun_each s (map (xconc D) xs))) -> In o outs ->
+       match o with HResp _ l _ _ => l = 0 | HSendError _ => False | _ => True end.
+Proof. exact stray_responses_change_nothing. Qed.
+
 (* non-vacuity of the concurrent statement: two messages of two segments each UNDER THE SAME REFERENCE 5, both in flight, responses
    interleaved; message 0 is accepted, message 1 has its second segment rejected - the run is valid, and the hooks see one success for
    log 7 and one failure for log 8 *)
